@@ -63,6 +63,11 @@ pub struct Ctx {
     pub limit: usize,
     pub calls: u64,
     pub big_allocs: Vec<(String, usize)>,
+    /// largest single allocation request made inside a subject step
+    pub max_alloc: usize,
+    /// steps that returned an error / steps run
+    pub errs: u64,
+    pub steps: u64,
 }
 
 impl Ctx {
@@ -71,6 +76,9 @@ impl Ctx {
             limit,
             calls: 0,
             big_allocs: vec![],
+            max_alloc: 0,
+            errs: 0,
+            steps: 0,
         }
     }
 
@@ -86,6 +94,11 @@ impl Ctx {
         let r = vcore::catch(|| f(&mut calls));
         self.calls += calls.max(1);
         let m = alloc::thread_max();
+        self.max_alloc = self.max_alloc.max(m);
+        self.steps += 1;
+        if !matches!(r, Ok(Ok(_))) {
+            self.errs += 1;
+        }
         if m > self.limit {
             self.big_allocs.push((name.to_string(), m));
         }
@@ -258,14 +271,16 @@ pub struct SstObs {
     pub loads: Vec<Step<(Option<Vec<u8>>, bool)>>,
 }
 
-/// (key, timestamp) pairs for point reads: every key at u64::MAX, at each of its versions and
-/// one below each version; keys that are absent (before, between, extending, after).
+/// (key, timestamp) pairs for point reads: every key at u64::MAX and one below each of its
+/// versions (the multi-version key also at each version); keys that are absent (before, between, extending, after).
 pub fn load_probes(entries: &[Entry]) -> Vec<(Vec<u8>, u64)> {
     let mut v: Vec<(Vec<u8>, u64)> = vec![];
     for e in entries {
         v.push((e.key.clone(), u64::MAX));
-        v.push((e.key.clone(), e.ts));
         v.push((e.key.clone(), e.ts.saturating_sub(1)));
+        if e.key.ends_with(b"0002") {
+            v.push((e.key.clone(), e.ts));
+        }
     }
     for k in [
         &b""[..],
@@ -374,6 +389,21 @@ fn compare_load(
     }
 }
 
+fn show_meta(m: &Meta, fields: &[&str]) -> String {
+    let mut v = vec![];
+    for f in fields {
+        v.push(match *f {
+            "setsum" => format!("setsum {}", vcore::hex(&m.setsum)),
+            "first_key" => format!("first_key {}", vcore::esc(&m.first_key)),
+            "last_key" => format!("last_key {}", vcore::esc(&m.last_key)),
+            "smallest_timestamp" => format!("smallest_timestamp {}", m.smallest_timestamp),
+            "biggest_timestamp" => format!("biggest_timestamp {}", m.biggest_timestamp),
+            _ => format!("file_size {}", m.file_size),
+        });
+    }
+    v.join(", ")
+}
+
 pub fn compare_sst(
     got: &SstObs,
     want: &SstObs,
@@ -423,7 +453,11 @@ pub fn compare_sst(
                 out.push(Finding {
                     class: "silent",
                     what: format!("metadata-differs({})", diff.join("+")),
-                    detail: format!("expected {wm:?}, observed {gm:?}"),
+                    detail: format!(
+                        "expected {}, observed {}",
+                        show_meta(wm, &diff),
+                        show_meta(gm, &diff)
+                    ),
                 });
             }
         }
